@@ -92,7 +92,11 @@ func (rn *runner) exec(c tcase, seed int64) {
 	repo := env.InitRepo("repo")
 	gitDir := filepath.Join(repo, ".git")
 	os.WriteFile(filepath.Join(repo, ".gitattributes"), []byte("*.bin filter=lfs diff=lfs merge=lfs -text\n"), 0o644)
-	if c.Ext {
+	if c.Mode == "ext-fault" {
+		for _, kv := range filt.InstallFaultyExt(env, c.Chunk) {
+			env.MustGit(repo, "config", kv[0], kv[1])
+		}
+	} else if c.Ext {
 		for _, kv := range filt.InstallExt(env) {
 			env.MustGit(repo, "config", kv[0], kv[1])
 		}
@@ -266,7 +270,73 @@ func (rn *runner) exec(c tcase, seed int64) {
 		checkSmudged(sm.Stdout, "git lfs smudge")
 	case "merge-driver":
 		rn.mergeCase(c, env, repo, gitDir, r)
+	case "ext-fault":
+		rn.extFault(c, env, repo, gitDir, path, abs, b, checkCleaned, checkSmudged)
 	}
+}
+
+// extFault: a configured pointer extension whose clean or smudge program fails (exits non-zero,
+// possibly after emitting part of its output). The filter may refuse (non-zero exit, `git add`
+// fails); what it must not do is report success with a pointer that does not lead back to the
+// original bytes, or with smudged bytes that are not the original.
+func (rn *runner) extFault(c tcase, env *sbx.Env, repo, gitDir, path, abs string, b []byte, checkCleaned func([]byte, string) (ptrspec.Pointer, bool), checkSmudged func([]byte, string)) {
+	run := rn.run
+	var ptr []byte
+	how := "git lfs clean"
+	if c.Pk == "/git-add" {
+		how = "git add"
+		os.WriteFile(abs, b, 0o644)
+		a := env.Git(repo, "add", "--", path)
+		run.Count("processes", 1)
+		if a.GoCrash() {
+			rn.viol(c, "go-panic", "git add: "+sbx.Trunc(a.Stderr, 1500), nil)
+			return
+		}
+		if !a.OK() {
+			run.Count("ext_fault_clean_refused", 1)
+			if blob := env.PlainGit(repo, "cat-file", "blob", ":"+path); blob.OK() {
+				rn.viol(c, "failed-clean-staged-something", "git add failed but the index holds a blob for the path: "+sbx.Trunc(blob.Stdout, 300), nil)
+			}
+			return
+		}
+		ptr = env.PlainGit(repo, "cat-file", "blob", ":"+path).Stdout
+	} else {
+		setWt(abs, c.Wt, b)
+		res := env.Run(sbx.RunOpt{Dir: repo, Stdin: bytes.NewReader(b)}, "git-lfs", "clean", "--", path)
+		run.Count("processes", 1)
+		if res.GoCrash() {
+			rn.viol(c, "go-panic", "git lfs clean crashed: "+sbx.Trunc(res.Stderr, 1500), nil)
+			return
+		}
+		if !res.OK() {
+			run.Count("ext_fault_clean_refused", 1)
+			return
+		}
+		ptr = res.Stdout
+	}
+	// clean reported success: then the pointer must be right (stored object = extension image of the
+	// input, oid/size match it) ...
+	run.Count("ext_fault_clean_reported_success", 1)
+	p, sym, what := filt.CheckClean(gitDir, b, ptr, true)
+	run.Count("clean_outputs_judged", 1)
+	if sym != "" {
+		rn.viol(c, sym, how+" reported success although the extension failed: "+what, map[string]any{"clean_output": sbx.Trunc(ptr, 600)})
+		return
+	}
+	_ = p
+	// ... and smudging it either fails or returns the original bytes
+	sm := env.Run(sbx.RunOpt{Dir: repo, Stdin: bytes.NewReader(ptr)}, "git-lfs", "smudge", "--", path)
+	run.Count("processes", 1)
+	if sm.GoCrash() {
+		rn.viol(c, "go-panic", "git lfs smudge crashed: "+sbx.Trunc(sm.Stderr, 1500), nil)
+		return
+	}
+	if !sm.OK() {
+		run.Count("ext_fault_smudge_refused", 1)
+		return
+	}
+	run.Count("ext_fault_smudge_reported_success", 1)
+	checkSmudged(sm.Stdout, "git lfs smudge (exit 0) with a failing extension")
 }
 
 func summarize(r fpclient.Resp) map[string]any {
@@ -372,7 +442,7 @@ func min(a, b int) int {
 func main() {
 	run := evid.New("C01", "exploration")
 	defer sbx.RemoveBase()
-	run.Rule = "seeded cases over sizes {0,1,2,100,1023,1024,1025,4096,65515,65516,65517,131075,(3MB)} x content {random, text LF/CRLF, zeros, pointer-prefix+payload, pointer look-alike} x mode {one-shot clean/smudge fed through a pipe in write(2) chunk plans whole/1/7/512/1023/1024/1025/4096/random with pauses, filter-process via an independent pkt-line client with packet sizes 1/2/100/8192/65515/65516/random, git add + git checkout (process and one-shot filters), git hash-object --path --stdin (process and one-shot), git merge through git lfs merge-driver with merged pointer shorter/equal/longer than the overwritten one} x working-tree file at the path {absent, same, empty, 10 bytes, 1024 bytes, longer} x {no extension, one reversible extension}. Oracle: output parses as canonical pointer (ptrspec), oid/size = SHA-256/length of the stored object, stored object = input (or extension image), smudge output = input; merge result vs git merge-file. Class = all coordinates."
+	run.Rule = "seeded cases over sizes {0,1,2,100,1023,1024,1025,4096,65515,65516,65517,131075,(3MB)} x content {random, text LF/CRLF, zeros, pointer-prefix+payload, pointer look-alike} x mode {one-shot clean/smudge fed through a pipe in write(2) chunk plans whole/1/7/512/1023/1024/1025/4096/random with pauses, filter-process via an independent pkt-line client with packet sizes 1/2/100/8192/65515/65516/random, git add + git checkout (process and one-shot filters), git hash-object --path --stdin (process and one-shot), git merge through git lfs merge-driver with merged pointer shorter/equal/longer than the overwritten one} x working-tree file at the path {absent, same, empty, 10 bytes, 1024 bytes, longer} x {no extension, one reversible extension}; plus a pointer extension whose clean or smudge program fails (partial output + exit 3, no output + exit 1, full output + exit 1) driven one-shot and by git add: the filter may refuse, but a reported success must still satisfy the oracle. Oracle: output parses as canonical pointer (ptrspec), oid/size = SHA-256/length of the stored object, stored object = input (or extension image), smudge output = input; merge result vs git merge-file. Class = all coordinates."
 	run.Assumptions = []string{"inputs are non-pointers by construction (pointer pass-through is C08)", "pipe chunking with pauses is a legal OS schedule; nothing is assumed about timing", "git merge-file is the authority on the expected three-way merge result"}
 	rn := &runner{run: run}
 	r := rand.New(rand.NewSource(run.Seed))
@@ -445,6 +515,13 @@ func main() {
 				c.Pk = "/pk100"
 			}
 			add(c)
+		}
+	}
+	for _, kind := range []string{"clean-partial", "clean-nooutput", "clean-full-exit", "smudge-partial", "smudge-nooutput"} {
+		for _, via := range []string{"/oneshot", "/git-add"} {
+			for _, sz := range []int{1, 4900, 70000}[:run.N(2, 3)] {
+				add(tcase{Mode: "ext-fault", Size: sz, Content: "random", Wt: "absent", Ext: true, Chunk: kind, Pk: via})
+			}
 		}
 	}
 	for _, rel := range []string{"shorter-pointer", "same-pointer", "longer-pointer"} {
